@@ -188,7 +188,7 @@ def gen_shapes(tier, seed):
             allshapes.append(dict(n=n, methods=md))
     total = len(allshapes)
     rng.shuffle(allshapes)
-    out = allshapes[: 160 if tier == "quick" else 2500]
+    out = allshapes[: 160 if tier == "quick" else 640]
     for sh in out:
         sh["equal_prio"] = tier == "quick"
     return out, total, True
@@ -207,7 +207,7 @@ def main(tier, seed):
     t0 = time.time()
     runner.assert_real_code()
     shapes, total, sampled = gen_shapes(tier, seed)
-    kw = dict(tier=tier, seed=seed, budget_s=4 if tier == "quick" else 60, validate=0)
+    kw = dict(tier=tier, seed=seed, budget_s=4 if tier == "quick" else 25, validate=0)
     results = runner.pmap("props.c20", "explore_shape", shapes, kw, chunksize=2)
     return runner.finish(
         PID, tier, seed, t0, results,
@@ -217,7 +217,7 @@ def main(tier, seed):
                     hook_answers="predicates: one solver boolean per (predicate, class); hooks: supertype boolean per class, order chosen among "
                                  "LESS/MORE/NONE/NotImplemented per class",
                     priorities="all equal (quick) / symbolic integers (thorough)",
-                    budget="per method set: 4 s (quick) / 60 s (thorough) of path classes; exhaustion is reported per shape"),
+                    budget="per method set: 4 s (quick) / 25 s (thorough) of path classes; exhaustion is reported per shape"),
         rule="one state = one method set x class of (hierarchy, predicate answers, hook answers, priorities); non-trivial = >=2 successful warm calls",
         stubs=["SymMeta classes with a consultation counter", "counting user predicates and hooks answering from solver variables", "SymInt priorities"],
         dont_care=["calls whose warm-up ended in an error (the statement covers successful combinations only)"],
